@@ -5,6 +5,12 @@
 //!                                     frame specs; obs = per op `<result>@<virtual position>`
 //!   vp   c1 u1 c2 u2                  VirtualPosition::try_from, compressed/uncompressed, Ord
 //!   gzi  <entries> <pos>              gzi::Index::query
+//!   wtm  <level> <finish> <ops> <n> <tbl>  writer history as in wtell; obs = per told position
+//!                                     `<c>:<u>=<seek result>><bytes read to the end with an n-byte
+//!                                     buffer by a fresh Reader sought there>`, compared with
+//!                                     NV.Bgzf.WriterTell.wtell_run (C01's writer model + sink_file +
+//!                                     the reader model); <tbl> = `isize:digest:cdata_len` per data
+//!                                     frame of the real output = the DEFLATE size oracle of the model
 //! Implementation-only oracles (obs `-`):
 //!   hist mt ...                       the same histories over MultithreadedReader
 //!   wtell <level> <finish> <ops>      Writer::virtual_position() sampled between write/flush
@@ -803,16 +809,34 @@ fn run_hist(c: &Case) -> Obs {
 // -------------------------------------------------------------------------------------------
 // writer side: positions told by the writer name the bytes written next
 
-fn run_wtell(c: &Case) -> Obs {
-    let level = c.u(0) as u8;
-    let finish = c.args[1].as_str();
+/// the (isize, digest of the data, cdata length) table of the data frames of a BGZF file whose
+/// uncompressed stream is d
+fn frame_table(bytes: &[u8], d: &[u8]) -> Vec<(usize, u64, usize)> {
+    let (mut i, mut o, mut t) = (0usize, 0usize, Vec::new());
+    while i + 18 <= bytes.len() {
+        let bsize = u16::from_le_bytes([bytes[i + 16], bytes[i + 17]]) as usize + 1;
+        let isize = u32::from_le_bytes(bytes[i + bsize - 4..i + bsize].try_into().unwrap()) as usize;
+        if isize > 0 {
+            let h = d[o..o + isize].iter().fold(0u64, |h, &x| mix(h, u64::from(x)));
+            t.push((isize, h, bsize - 26));
+        }
+        i += bsize;
+        o += isize;
+    }
+    assert!(i == bytes.len() && o == d.len(), "frame table walk");
+    t
+}
+
+/// runs a writer script on the real writer: (file bytes, accepted data, told positions with the
+/// flat index each one precedes)
+fn writer_script(level: u8, finish: &str, script: &str) -> (Vec<u8>, Vec<u8>, Vec<(VP, usize)>) {
     let lvl = bgzf::io::writer::CompressionLevel::new(level).unwrap();
     let mut w = bgzf::io::writer::Builder::default()
         .set_compression_level(lvl)
         .build_from_writer(Vec::new());
     let mut d: Vec<u8> = Vec::new();
     let mut samples: Vec<(VP, usize)> = vec![(w.virtual_position(), 0)];
-    for p in c.args[2].split(',').filter(|p| *p != "_") {
+    for p in script.split(',').filter(|p| *p != "_") {
         if p == "f" {
             w.flush().unwrap();
         } else {
@@ -835,10 +859,40 @@ fn run_wtell(c: &Case) -> Obs {
             w.into_inner() // no EOF marker
         }
     };
+    (bytes, d, samples)
+}
+
+/// the modelled observation of a writer history: every told position, sought to by a fresh
+/// Reader in the finished file, then read to the end with an n-byte buffer
+fn wtm_obs(bytes: &[u8], samples: &[(VP, usize)], n: usize) -> String {
+    let mut parts = Vec::new();
+    for &(v, _) in samples {
+        let mut r = bgzf::io::Reader::new(Cursor::new(bytes.to_vec()));
+        let sk = match guarded(AssertUnwindSafe(|| r.seek(v))) {
+            Outcome::Done(Ok(x)) => format!("{}:{}", x.compressed(), x.uncompressed()),
+            Outcome::Done(Err(e)) => format!("Err:{}", errkind(&e)),
+            Outcome::Panicked(_) => "Panic".into(),
+        };
+        let rd = match bounded_read_to_end(&mut r, READ_ALL_CAP, n) {
+            Ok(t) => canon_bytes(&t),
+            Err(e) if e.starts_with("Panic") => "Panic".to_string(),
+            Err(e) => e,
+        };
+        parts.push(format!("{}:{}={}>{}", v.compressed(), v.uncompressed(), sk, rd));
+    }
+    parts.join(" ")
+}
+
+fn run_wtell(c: &Case) -> Obs {
+    let modelled = c.kind == "wtm";
+    let level = c.u(0) as u8;
+    let finish = c.args[1].as_str();
+    let (bytes, d, samples) = writer_script(level, finish, &c.args[2]);
+    let obs_s = if modelled { wtm_obs(&bytes, &samples, c.u(3) as usize) } else { "-".to_string() };
     let mut prev = 0u64;
     for (i, &(v, off)) in samples.iter().enumerate() {
         if u64::from(v) < prev {
-            return Obs::fail("-", "writer-tell-decreased", format!("sample {i}"));
+            return Obs::fail(obs_s, "writer-tell-decreased", format!("sample {i}"));
         }
         prev = u64::from(v);
         for pk in ["rd", "mt"] {
@@ -869,7 +923,7 @@ fn run_wtell(c: &Case) -> Obs {
                 Ok(t) if t == d[off..] => {}
                 other => {
                     return Obs::fail(
-                        "-",
+                        obs_s,
                         "writer-told-position-does-not-name-next-byte",
                         format!(
                             "sample {i} vpos={}:{} flat={off} {pk}: {}",
@@ -885,7 +939,7 @@ fn run_wtell(c: &Case) -> Obs {
             }
         }
     }
-    Obs::ok("-", samples.len() > 2 && d.len() > 1)
+    Obs::ok(obs_s, samples.len() > 2 && d.len() > 1)
 }
 
 // -------------------------------------------------------------------------------------------
@@ -949,7 +1003,7 @@ fn run_gzi(c: &Case) -> Obs {
 fn run(c: &Case) -> Obs {
     match c.kind.as_str() {
         "hist" => run_hist(c),
-        "wtell" => run_wtell(c),
+        "wtell" | "wtm" => run_wtell(c),
         "vp" => run_vp(c),
         "gzi" => run_gzi(c),
         k => Obs::fail("-", "harness-unknown-kind", k),
@@ -1029,6 +1083,12 @@ fn gen_size(rng: &mut Rng, l: &Layout, win: usize) -> usize {
     }
 }
 
+/// buffer size of a read-to-end: at most ~24 iterations over the data (the extracted model pays
+/// O(block) per read call), 0 stays 0
+fn all_size(l: &Layout, n: usize) -> usize {
+    if n == 0 { 0 } else { n.max(l.d.len() / 24 + 1) }
+}
+
 fn gen_seek_target(rng: &mut Rng, l: &Layout) -> (u64, u16) {
     if l.tbl.is_empty() || rng.chance(1, 14) {
         return (l.file_len, 0);
@@ -1070,13 +1130,16 @@ fn gen_ops(rng: &mut Rng, kind: &str, l: &Layout, index: &[(u64, u64)], nops: us
     while ops.len() < nops && tries < nops * 6 {
         tries += 1;
         let op = match rng.below(22) {
-            20 | 21 => Op::ReadAll(match rng.below(6) {
-                0 => 1,
-                1 => *rng.pick(&[65535usize, 65536, 70000]),
-                2 => 4096,
-                3 => gen_size(rng, l, flat.win),
-                _ => rng.range(1, 300) as usize,
-            }),
+            20 | 21 => {
+                let n = match rng.below(6) {
+                    0 => 1,
+                    1 => *rng.pick(&[65535usize, 65536, 70000]),
+                    2 => 4096,
+                    3 => gen_size(rng, l, flat.win),
+                    _ => rng.range(1, 300) as usize,
+                };
+                Op::ReadAll(all_size(l, n))
+            }
             0..=4 => Op::Read(gen_size(rng, l, flat.win)),
             5..=7 => {
                 let n = gen_size(rng, l, flat.win);
@@ -1221,7 +1284,7 @@ fn generate(rng: &mut Rng, tier: &str, w: &mut CaseWriter) {
             &ix4,
             &[
                 Op::Seek(t[0].0, 3),
-                Op::ReadAll(5),
+                Op::ReadAll(4099),
                 Op::Seek(t[1].0, 0),
                 Op::ReadAll(70000),
                 Op::ReadAll(1),
@@ -1237,8 +1300,9 @@ fn generate(rng: &mut Rng, tier: &str, w: &mut CaseWriter) {
                 Op::ReadAll(65535),
             ],
         );
-        push_hist(w, "ix", &fs4, &ix4, &[Op::SeekU(6), Op::ReadAll(4), Op::SeekU(12 + 65536), Op::ReadAll(70000), Op::SeekU(0), Op::ReadAll(65536)]);
-        push_hist(w, "mt", &fs4, &ix4, &[Op::Seek(t[3].0, 5), Op::ReadAll(3), Op::SeekU(7), Op::ReadAll(70000)]);
+        push_hist(w, "ix", &fs4, &ix4, &[Op::SeekU(6), Op::ReadAll(5000), Op::SeekU(12 + 65536), Op::ReadAll(70000), Op::SeekU(0), Op::ReadAll(65536)]);
+        push_hist(w, "mt", &fs4, &ix4, &[Op::Seek(t[3].0, 5), Op::ReadAll(3000), Op::SeekU(7), Op::ReadAll(70000)]);
+        push_hist(w, "rd", &fs2, &l2.full_index(), &[Op::ReadAll(1), Op::Seek(l2.tbl[0].0, 6), Op::ReadAll(3), Op::Seek(l2.tbl[1].0, 5), Op::ReadAll(3)]);
         push_hist(w, "rd", &fs2, &l2.full_index(), &[Op::Seek(l2.tbl[1].0, 2), Op::ReadAll(70000), Op::ReadAll(70000), Op::Seek(0, 7), Op::ReadAll(2)]);
         // empty file / marker only
         push_hist(w, "rd", &[], &[], &[Op::ReadAll(3), Op::ReadAll(70000)]);
@@ -1266,7 +1330,7 @@ fn generate(rng: &mut Rng, tier: &str, w: &mut CaseWriter) {
                 let (c, u) = gen_seek_target(rng, &l);
                 ops.push(Op::Seek(c, u));
             }
-            ops.push(Op::ReadAll(*rng.pick(&[1usize, 7, 4096, 65535, 65536, 70000])));
+            ops.push(Op::ReadAll(all_size(&l, *rng.pick(&[1usize, 7, 4096, 65535, 65536, 70000]))));
             if rng.chance(1, 2) {
                 ops.push(Op::Read(*rng.pick(&[1usize, 70000])));
             }
@@ -1302,6 +1366,46 @@ fn generate(rng: &mut Rng, tier: &str, w: &mut CaseWriter) {
         }
         let ops = if ops.is_empty() { "_".to_string() } else { ops.join(",") };
         w.push("wtell", vec![level.to_string(), finish.into(), ops]);
+    }
+    // ---- writer histories compared with the model (bounded data: the extracted model computes
+    // CRC-32 and the reader model's block copies in Coq-extracted code)
+    let n_wm = if thorough { 400 } else { 36 };
+    for i in 0..n_wm {
+        let level = rng.below(10);
+        let finish = if rng.chance(2, 3) { "finish" } else { "noeof" };
+        let k = rng.range(1, 8);
+        let big_ok = i % 4 == 0;
+        let mut ops = Vec::new();
+        let mut total = 0usize;
+        for _ in 0..k {
+            if rng.chance(1, 3) {
+                ops.push("f".to_string());
+            } else {
+                let n = match rng.below(10) {
+                    0 => 0,
+                    1 => 1,
+                    2 if big_ok => *rng.pick(&[65494usize, 65495, 65496, 65536]),
+                    3 if big_ok => rng.range(60000, 132000) as usize,
+                    _ => rng.range(1, 1500) as usize,
+                };
+                if total + n > 135_000 {
+                    continue;
+                }
+                total += n;
+                let wr = if rng.chance(1, 4) { 'w' } else { 'W' };
+                ops.push(format!("{wr}{}:{}:{}", n, rng.below(251), rng.range(1, 250)));
+            }
+        }
+        let ops = if ops.is_empty() { "_".to_string() } else { ops.join(",") };
+        let (bytes, d, _) = writer_script(level as u8, finish, &ops);
+        let tbl = frame_table(&bytes, &d);
+        let tbl = if tbl.is_empty() {
+            "_".to_string()
+        } else {
+            tbl.iter().map(|(i, h, c)| format!("{i}:{h}:{c}")).collect::<Vec<_>>().join(",")
+        };
+        let n = (*rng.pick(&[1usize, 7, 4096, 65535, 65536, 70000])).max(d.len() / 16 + 1);
+        w.push("wtm", vec![level.to_string(), finish.into(), ops, n.to_string(), tbl]);
     }
     // ---- pack/unpack/order: boundary block offsets x in-block offsets
     let cs = [0u64, 1, 2, 65535, 65536, (1 << 32) - 1, 1 << 32, (1 << 47) + 12345, (1 << 48) - 2, (1 << 48) - 1, 1 << 48, (1 << 48) + 1, u64::MAX >> 1, u64::MAX];
